@@ -18,6 +18,7 @@ import (
 	"fmt"
 	"io"
 	"log"
+	"os"
 	"path/filepath"
 	"time"
 
@@ -71,8 +72,17 @@ func nextFile(outDir string) (*bufferedFile, error) {
 }
 
 func nextFileName(outDir string) string {
-	name := fmt.Sprintf("%s.cptr", time.Now().Format("2006_01_02T15_04_05"))
-	return filepath.Join(outDir, name)
+	base := time.Now().Format("2006_01_02T15_04_05")
+	name := filepath.Join(outDir, base+".cptr")
+	// Names have a resolution of one second. Never reuse the name of a file that is
+	// already there (creating it again would truncate it), e.g. when the camera
+	// reconnects within the second in which the previous file was started.
+	for i := 1; ; i++ {
+		if _, err := os.Lstat(name); err != nil {
+			return name
+		}
+		name = filepath.Join(outDir, fmt.Sprintf("%s_%d.cptr", base, i))
+	}
 }
 
 // newBuilder returns a new Builder instance, ready to generate a raw
